@@ -313,6 +313,20 @@ func x2Configs(prop, tier string) []*X2Config {
 		res = append(res, &X2Config{Name: "C10/pipeline-removed-by-reload", DefsOverride: []*definitionPipelinesDef{with, without}, Pipes: []string{"p"},
 			Depth: depth(5, 6), Cancel: true, FailOK: true, Reload: true, Symmetry: false, Restart: true, Props: props()})
 	}
+	if prop == "C07" || prop == "C16" {
+		// a reload from append to replace (also with a delay) while several jobs wait: the request accepted afterwards
+		// replaces the newest waiting job, the others keep their places
+		a := PipeCfg{Conc: 1, QL: -1, Graph: graphOne}
+		b := PipeCfg{Conc: 1, QL: -1, Replace: true, Graph: graphOne}
+		bd := PipeCfg{Conc: 1, QL: -1, Replace: true, Delay: dly, Graph: graphOne}
+		for _, v := range []struct {
+			n string
+			c PipeCfg
+		}{{"replace", b}, {"replace+delay", bd}} {
+			res = append(res, &X2Config{Name: prop + "/reload-append-to-" + v.n, Cfgs: []PipeCfg{a, v.c}, Depth: depth(7, 8), Cancel: true, Reload: true, Symmetry: true, AdvSteps: []time.Duration{dly / 2, dly}, Drain: true,
+				Props: props(prop, "C02")})
+		}
+	}
 	if prop == "C12" {
 		// from a state with one running and two waiting jobs of the single-slot pipeline: cancels and saves in every order
 		for _, count := range []int{1, 2} {
